@@ -5,6 +5,8 @@ try:
 except ImportError:
     pass
 import numpy as np
+import os
+import shutil
 
 from functools import partial
 from pathlib import Path
@@ -1266,14 +1268,19 @@ class Sampler():
         if filepath.suffix not in ['.h5', '.hdf5']:
             raise ValueError("File ending must '.h5' or '.hdf5'.")
 
-        if filepath.exists():
-            if not overwrite:
-                raise RuntimeError(
-                    "File {} already exists.".format(str(filepath)))
-            else:
-                filepath.unlink()
+        if filepath.exists() and not overwrite:
+            raise RuntimeError(
+                "File {} already exists.".format(str(filepath)))
 
         filepath.parent.mkdir(parents=True, exist_ok=True)
+
+        # Write to a temporary file and move it into place only once it is
+        # complete. This way, an existing file is never missing or partially
+        # written if the process is interrupted.
+        filepath_final = filepath
+        filepath = filepath_final.with_name(filepath_final.name + '.tmp')
+        if filepath.exists():
+            filepath.unlink()
 
         fstream = h5py.File(filepath, 'x')
         group = fstream.create_group('sampler')
@@ -1323,6 +1330,7 @@ class Sampler():
         group.attrs['rng_uinteger'] = rng_state['uinteger']
 
         fstream.close()
+        os.replace(filepath, filepath_final)
 
     def write_shell_update(self, filepath, shell):
         """Update the sampler data for a single shell.
@@ -1337,7 +1345,15 @@ class Sampler():
         """
         if shell < 0:
             shell = len(self.bounds) + shell
-        fstream = h5py.File(Path(filepath), 'r+')
+
+        # Update a copy and move it into place only once it is complete such
+        # that the file is never partially updated if the process is
+        # interrupted.
+        filepath_final = Path(filepath)
+        filepath = filepath_final.with_name(filepath_final.name + '.tmp')
+        shutil.copyfile(filepath_final, filepath)
+
+        fstream = h5py.File(filepath, 'r+')
         group = fstream['sampler']
 
         for key in ['n_like', '_discard_exploration', 'shell_n',
@@ -1369,3 +1385,4 @@ class Sampler():
         group.attrs['rng_uinteger'] = rng_state['uinteger']
 
         fstream.close()
+        os.replace(filepath, filepath_final)
